@@ -452,7 +452,7 @@ class Ctx:
 
     # ---- the generic correspondence step
     def correspond(self, stream, harness_exe, driver_exe, ops_lines, cmp=None, oracle_key=None,
-                   group_start=None, harness_args=(), driver_args=(), describe=None):
+                   group_start=None, harness_args=(), driver_args=(), describe=None, model_is_spec=None):
         """Run implementation and model on the same lines; compare line by line.
         cmp(impl_line, model_line, op_line) -> bool.  Returns (n_mismatch, impl_lines, model_lines, oracle_lines).
         On a mismatch the minimal group (from the last line for which group_start(op) holds up to
@@ -500,6 +500,12 @@ class Ctx:
                                    % (stream, nmis, len(ops_lines), ops_lines[first], a, b),
                                    json.dumps({"stream": stream, "ops": grp, "impl": a, "model": b}))
             self.last_mismatch = {"stream": stream, "ops": grp, "impl": a, "model": b}
+            if model_is_spec:
+                # the property says "equals <the formula the model IS>" (a theorem identifies the model
+                # with the published formula): a disagreement is then a concrete failing input
+                self.violation("%s:%s" % (stream, model_is_spec),
+                               "the implementation differs from the specification formula (Lean model proved equal to it) on op %r: implementation %r, specification %r"
+                               % (ops_lines[first], a, b), {"stream": stream, "ops": grp, "impl": a, "model": b})
         return nmis, impl, model, orc
 
     @staticmethod
